@@ -567,10 +567,10 @@ func (s *Server) FastInvoke(w http.ResponseWriter, i *interop.Invoke, direct boo
 
 			if cachedInitError := s.getCachedInitErrorResponse(); cachedInitError != nil {
 				// /init/error was called
-				s.trySendDefaultErrorResponse(cachedInitError)
+				s.trySendDefaultErrorResponse(invokeID, cachedInitError)
 			} else {
 				// sent only if /error and /response not called
-				s.trySendDefaultErrorResponse(invokeFailure.DefaultErrorResponse)
+				s.trySendDefaultErrorResponse(invokeID, invokeFailure.DefaultErrorResponse)
 			}
 			doneFail := doneFailFromInvokeFailure(invokeFailure)
 			s.InvokeDoneChan <- DoneWithState{
@@ -606,9 +606,12 @@ func (s *Server) getCachedInitErrorResponse() *interop.ErrorInvokeResponse {
 	return s.cachedInitErrorResponse
 }
 
-func (s *Server) trySendDefaultErrorResponse(resp *interop.ErrorInvokeResponse) {
-	if err := s.SendErrorResponse(s.GetCurrentInvokeID(), resp); err != nil {
-		if err != interop.ErrResponseSent {
+// trySendDefaultErrorResponse answers the invoke that failed (invokeID), not whichever invoke happens to be
+// current when the failure is handled: after a timeout or reset the reservation may already be gone or
+// belong to the next caller, in which case there is nobody left to answer.
+func (s *Server) trySendDefaultErrorResponse(invokeID string, resp *interop.ErrorInvokeResponse) {
+	if err := s.SendErrorResponse(invokeID, resp); err != nil {
+		if err != interop.ErrResponseSent && err != interop.ErrInvalidInvokeID {
 			log.Panicf("Failed to send default error response: %s", err)
 		}
 	}
